@@ -85,6 +85,8 @@ pub enum HOp {
     Extra { which: u8, ai: bool },
     /// repeat the last checkpoint verbatim (C14)
     RepeatCheckpoint { times: u8 },
+    /// create a new file (possibly in a new directory)
+    NewFile { name: u8, actor: Actor, lines: Vec<LineSpec> },
 }
 
 impl HOp {
@@ -134,6 +136,7 @@ impl HOp {
             HOp::Relayout { .. } => "notes-relayout",
             HOp::Extra { .. } => "extra-file",
             HOp::RepeatCheckpoint { .. } => "repeat-checkpoint",
+            HOp::NewFile { .. } => "new-file",
         }
     }
 }
@@ -392,6 +395,8 @@ pub struct Engine {
     pub carry_over: bool,
     /// layout last forced on refs/notes/ai by a Relayout op (None = git's own)
     pub forced_layout: Option<u8>,
+    /// collect `git-ai stats --json` of every commit at the end (C12)
+    pub want_stats: bool,
 }
 
 fn sig(pid: &str, s: &str) -> String {
@@ -468,6 +473,7 @@ impl Engine {
             initial_files: BTreeSet::new(),
             carry_over: false,
             forced_layout: None,
+            want_stats: false,
         };
         e.known_commits = e.all_commits();
         Some(e)
@@ -1242,6 +1248,21 @@ impl Engine {
                     self.ai_pending = true;
                 }
                 rep.class(format!("extra:{}", path));
+            }
+            HOp::NewFile { name, actor, lines } => {
+                out.class = OpClass::Edit;
+                let mut n = file_name(*name).to_string();
+                if n.contains('\n') {
+                    n = "plain-new.txt".into();
+                }
+                let n = if self.names.contains(&n) || self.w.repo.join(&n).exists() { format!("newdir{}/{}", self.names.len(), n.rsplit('/').next().unwrap_or("x")) } else { n };
+                self.names.push(n.clone());
+                let eff = self.w.edit(*actor, &n, &Edit::Insert { pos: 0, lines: lines.clone() });
+                if actor.is_ai() && eff.changed {
+                    self.ai_pending = true;
+                    self.pending_file_state.insert(n.clone(), (true, false));
+                }
+                rep.class(if actor.is_ai() { "new-file-by-agent" } else { "new-file-by-human" });
             }
             HOp::RepeatCheckpoint { times } => {
                 for _ in 0..(*times).clamp(1, 3) {
